@@ -3,10 +3,18 @@ From GT Require Import Visitor Validate.
 From GTS Require Import Annot WfSchema SpecRules SpecValues SpecValid.
 From GTP Require Import C08_proofs.
 
-(* the decision core, for ALL expected types and literals (any nesting depth): walking a literal
-   with expected type t produces no error iff the literal is coercible to t *)
-Theorem C08_core : forall s t v c, wf_schema s = true ->
+(* the decision core, for ALL expected types and ALL literals (any wrapper / nesting depth):
+   walking literal v where type t is expected produces no error iff v is coercible to t.
+   [value_errors s (Some t) v] = the errors of the rule's handler on the walk of v alone. *)
+Theorem C08_core : forall s t v, wf_schema s = true ->
   is_input_or_unknown s (inner_type t) = true ->
   (value_errors s (Some t) v = [] <-> coercibleb s v t = true).
 Proof. exact value_errors_coercible. Qed.
 Print Assumptions C08_core.
+
+(* the rule, run alone on a document *)
+Theorem C08_values_of_correct_type : forall s d, wf_schema s = true ->
+  rule_in_scope R_ValuesOfCorrectType s d = true ->
+  (run_alone R_ValuesOfCorrectType s d <> [] <-> violated R_ValuesOfCorrectType s d = true).
+Proof. exact values_of_correct_type_iff. Qed.
+Print Assumptions C08_values_of_correct_type.
